@@ -47,6 +47,9 @@ func c19Queries() []scen.Query {
 		{Kind: "netall", URL: "http://y.test/x", Src: "http://sub.example.org/", Type: rules.TypeScript},
 		{Kind: "dns", Host: "only.test", DNSType: 1},
 		{Kind: "dns", Host: "shared.test", DNSType: 1},
+		// not a query: further engines are built over the same storage (their
+		// results are not looked at; the engines built first must not notice)
+		{Kind: "newengine"},
 	}
 }
 
@@ -265,6 +268,9 @@ func init() {
 		// fault-free oracle per query (fresh engines)
 		oracle := make([][]string, len(qs))
 		for i, q := range qs {
+			if q.Kind == "newengine" {
+				continue
+			}
 			e, st, _ := c19Build()
 			oracle[i], _ = c19Result(e, q)
 			st.Close()
@@ -375,6 +381,14 @@ func init() {
 				var got []string
 				var lie string
 				evals++
+				if qs[h].Kind == "newengine" {
+					if p := protect(func() { urlfilter.NewNetworkEngine(st); urlfilter.NewDNSEngine(st) }); p != nil {
+						c.Run.Violate(ev.Violation{Pred: "no-crash", Sig: map[string]any{"query": "newengine", "fault": c19FaultKinds[kind]},
+							What: fmt.Sprintf("building further engines over the storage panics: %v (%v)", p, desc()), Replay: replay})
+						return evals
+					}
+					continue
+				}
 				if p := protect(func() { got, lie = c19Result(e, qs[h]) }); p != nil {
 					if strings.Contains(fmt.Sprint(p), "leaked lock") {
 						abort.Store(true) // every later case would wait for the same lock again
